@@ -3259,7 +3259,8 @@ func (t *Terminal) printColoredString(window tui.Window, text []rune, offsets []
 	for _, offset := range offsets {
 		b := util.Constrain32(offset.offset[0], index, maxOffset)
 		e := util.Constrain32(offset.offset[1], index, maxOffset)
-		if url != nil && offset.url == nil {
+		if url != nil && (offset.url == nil || *offset.url != *url) {
+			// No link, or another link
 			url = nil
 			window.LinkEnd()
 		}
@@ -3542,13 +3543,14 @@ Loop:
 				if !t.activePreviewOpts.wrap {
 					trimmed, isTrimmed = t.trimRight(trimmed, maxWidth-t.pwindow.X())
 				}
+				if url != nil && (ansi == nil || ansi.url == nil || *ansi.url != *url) {
+					// No link, or another link
+					url = nil
+					t.pwindow.LinkEnd()
+				}
 				if url == nil && ansi != nil && ansi.url != nil {
 					url = ansi.url
 					t.pwindow.LinkBegin(url.uri, url.params)
-				}
-				if url != nil && (ansi == nil || ansi.url == nil) {
-					url = nil
-					t.pwindow.LinkEnd()
 				}
 				if ansi != nil {
 					lbg = ansi.lbg
